@@ -266,6 +266,7 @@ def parseTy : Nat → List Char → Option (Ty × List Char)
   | _ + 1, 'T' :: r => some (.base .struct 4 [], r)
   | _ + 1, 'i' :: r => some (.base .other 6 [], r)
   | _ + 1, 'M' :: r => some (implT, r)
+  | _ + 1, 'R' :: r => some (.ptr (.base .struct 7 []) [0], r)   -- *tErr: implements `error`, is not `error`
   | f + 1, '*' :: r => (parseTy f r).map fun x => (.ptr x.1 [], x.2)
   | f + 1, 'F' :: '(' :: r =>
     match parseTys f r with
@@ -309,6 +310,48 @@ def handleReg (kv : List (String × String)) (impl : String) : String × String 
       else if ok then (m, "fail:register:a supported way of registering a constructor is refused")
       else (m, "fail:register:an unsupported constructor / default-config function is accepted")
   | _, _ => ("-", "fail:driver:unparsable type")
+
+/-! ### round 6 — `via=facty`: the REQUESTED form (`NewFactory`, `LookupFactory`, `FactoryPluginType`, `New`) over requested
+types; one registration (plugin interface, "x").  `requestedOk` is proved equal to the regenerated `isFactoryType` for every
+Go type (Proofs/C18R6 `isFactoryType_eq`). -/
+
+open Pandora.Model.C18Ty Pandora.Model.C18Reg in
+def handleFacTy (kv : List (String × String)) (impl : String) : String × String :=
+  match parseTyStr (getS kv "ft") with
+  | none => ("-", "fail:driver:unparsable requested type")
+  | some ft =>
+    let nm := getS kv "nm" "x"
+    let nameOk := nm != "e"
+    let known := nm == "x"
+    let nf := if !(requestedOk ft && nameOk) then "expect"
+      else if requestedPlugin ft == plugT && known then "made.ok" else "noentry"
+    let lf := if requestedOk ft && requestedPlugin ft == plugT then "+" else "!"
+    let fpt := if requestedOk ft then "+" else "!"
+    let nw := if !(ft.kind == .iface && nameOk) then "expect" else if ft == plugT && known then "ok" else "noentry"
+    let m := s!"nf={nf} lf={lf} fpt={fpt} nw={nw}"
+    if impl == m then (m, "ok") else
+    let ikv := parseKV impl
+    let inf := getS ikv "nf"
+    let inw := getS ikv "nw"
+    if (nf == "expect" && inf != "expect") || (nw == "expect" && inw != "expect") ||
+        (fpt == "!" && getS ikv "fpt" != "!") || (lf == "!" && getS ikv "lf" != "!") then
+      (m, "fail:register:a requested type that is none of the supported forms is accepted")
+    else if (nf != "expect" && inf == "expect") || (nw != "expect" && inw == "expect") ||
+        (fpt == "+" && getS ikv "fpt" != "+") || (lf == "+" && getS ikv "lf" != "+") then
+      (m, "fail:register:a supported requested form is refused")
+    else (m, "fail:lookup:creation by requested type and name does not follow the registrations")
+
+/-- round 6 — `fillopt=two` / `dopt=two`: more than one optional argument is an expectation panic before anything runs
+(regenerated: `getFillConfTable`, `getNewDefaultConfigTable`) -/
+def handleOpt (kv : List (String × String)) (impl : String) : String × String :=
+  let sh := getS kv "sh"
+  let refused := match sh.toList with
+    | [_, c, _, _, _, d] => (c == 'n' && d != 'a') || (c == 's' && (d == 'n' || d == 's'))
+    | _ => false
+  let m := if refused && getS kv "dopt" != "two" then "regpanic" else "optpanic evs=0"
+  if impl == m then (m, "ok")
+  else if impl.startsWith "optpanic" then (m, "fail:counts:user code ran although the call was refused for its optional arguments")
+  else (m, "fail:register:more than one optional fillConf / default-config argument is accepted")
 
 /-! ### `via=engine`: a pool of the real engine with the registered gun -/
 
@@ -673,6 +716,11 @@ def handleMiss (inp : Input) (kv : List (String × String)) (impl : String) : St
     -- plugin is registered for the type at all
     let typeKnown := pt == 0
     if toks.length != exp.length then (m, "fail:lookup:number of results")
+    else if hook && !typeKnown && toks.any (fun t => t == ">noentry") then
+      -- round 6: `Hook` / `FactoryHook` ask the registry AS IT IS NOW whether the field's type has plugins (`C18_hook`:
+      -- a type without registered plugins gets its data back untouched); a lookup error here means the answer was
+      -- stale or came from another registry
+      (m, "fail:lookup:the config hook treated a field whose type has no registered plugin as a plugin field (stale or foreign Lookup answer)")
     else if toks.all (fun t => t == ">noentry" || (hook && !typeKnown && t == ">pass")) then (m, "ok")
     else if toks.any (fun t => !t.startsWith ">") then
       (m, "fail:lookup:user code ran although nothing is registered for this type and name")
@@ -766,6 +814,10 @@ def handleHookConf (input impl : String) : String × String :=
       else if res != exp.1 then (m, "fail:config:the component created through the hook was not built from the defaults overlaid by the user's settings")
       else if getN? ikv "ev" != some exp.2 then (m, "fail:counts:user code invoked another number of times than the constructor shape prescribes")
       else (m, "ok")
+    else if exp.1 == "pass" then
+      -- round 6: no plugin is registered for the field's type: the data go back untouched, whatever they look like
+      if res == "pass" then (m, "ok")
+      else (m, "fail:lookup:the config hook treated a field whose type has no registered plugin as a plugin field (stale or foreign Lookup answer)")
     else (m, "ok")
   | _, _, _, _ => ("-", "fail:driver:unparsable input")
 
@@ -1085,6 +1137,8 @@ def handle : Handler := fun input impl =>
   if getS (parseKV input) "via" == "nest" then Nest.handleNest input impl else
   if getS (parseKV input) "hist" == "1" then handleHist input impl else
   if getS (parseKV input) "via" == "reg" then handleReg (parseKV input) impl else
+  if getS (parseKV input) "via" == "facty" then handleFacTy (parseKV input) impl else
+  if getS (parseKV input) "fillopt" == "two" || getS (parseKV input) "dopt" == "two" then handleOpt (parseKV input) impl else
   if getS (parseKV input) "via" == "engine" then handleEngine input impl else
   handlePlain input impl
 
